@@ -54,6 +54,8 @@ def _case(draw: Any, args: dict) -> dict:
     # that is then looked up by name (superclass, unanalysed list attribute)
     for mname in ("shapes", "shapes_3d"):
         body = [
+            # (declared before Shape: the unanalysed 'list[Shape]' is then resolved through the table of short names)
+            gt.klass(namer.fresh("Holder"), [gt.attr(namer.fresh("held"), ["list", ["cls", f"{pk}.{mname}:Shape"]], "[]")]),
             gt.klass("Shape", [gt.attr(namer.fresh("sx"), ["int"], None)]),
             {"t": "raw", "lines": ["DEFAULT_SHAPE = Shape()"], "tags": []},
             gt.klass(namer.fresh("Square"), [gt.attr(namer.fresh("items"), ["list", ["cls", f"{pk}.{mname}:Shape"]], "[]")], bases=[["cls", f"{pk}.{mname}:Shape"]]),
